@@ -1104,5 +1104,8 @@ pub fn run(tier: Tier) -> i32 {
     report.assume("alias outcome (skip_topic, None) is not a resolver result and is not enumerated; in MQTT 3.1.1 mode only (false, None) applies");
     report.assume("graph dedup on (prefix length, complete) assumes the encoder state is a function of the emitted prefix for a fixed packet; checked for every node reached by two distinct paths by comparing the full continuation under capacities 4,4,4,... (packets over 1000 bytes: sixteen 4s then 4096 repeated)");
     if capacity_mismatches > 0 { report.assume("Vec::with_capacity returned a different capacity than requested for some calls; the bound check used the real capacity reported by the facade"); }
+    // the bytes a transport really receives: both real drivers under every single write deviation of the baseline workload
+    // (short, blocked, interrupted, zero-length writes) must deliver exactly the engine's bytes (reference decoder as judge)
+    crate::drivers::run_write_deviation_slice(&mut report);
     report.finish()
 }
